@@ -15,7 +15,8 @@ pub struct C19;
 /// one colour declaration of the exhaustive enumeration, applied to `<p id=x class=c>`
 #[derive(Clone, Copy, Debug, PartialEq)]
 struct D {
-    /// 0 agent, 1 user, 2 author (style element), 3 inline
+    /// 0 agent, 1 user, 2 author (style element), 3 inline, 4 the legacy `color` attribute (a normal declaration with
+    /// inline specificity at its position among the attributes; added after a mutation of its `important` argument survived)
     src: u8,
     important: bool,
     /// 0 element, 1 class, 2 id, 3 element+class, 4 nth-child
@@ -47,6 +48,9 @@ fn all_decls() -> Vec<D> {
         for important in [false, true] {
             if src == 3 {
                 v.push(D { src, important, speccls: 0 });
+                if !important {
+                    v.push(D { src: 4, important: false, speccls: 0 });
+                }
             } else {
                 for speccls in 0..5u8 {
                     v.push(D { src, important, speccls });
@@ -58,23 +62,35 @@ fn all_decls() -> Vec<D> {
 }
 
 /// build the case for an ordered tuple of declarations; colour k = (10k+10, 0, k)
-fn tuple_case(ds: &[D], r: &mut R) -> Case {
+fn tuple_case(ds: &[D], r: &mut R, bg: bool) -> Case {
     let mut agent = String::new();
     let mut user = String::new();
     let mut author = String::new();
     let mut inline = String::new();
+    let mut legacy = String::new();
     let mut aux = Vec::new();
+    let colour_first = colour_attr_first(&ds.iter().map(|d| d.src).collect::<Vec<_>>());
     for (k, d) in ds.iter().enumerate() {
         let colour = ((10 * k + 10) as u8, 0u8, k as u8);
         let imp = if d.important { r.pick(&[" !important", "!important"]) } else { "" };
-        let decl = format!("color:{}{}", hexcol(colour), imp);
+        let decl = format!("{}:{}{}", if bg { "background-color" } else { "color" }, hexcol(colour), imp);
         match d.src {
             0 => agent.push_str(&format!("{}{{{}}}\n", sel_text(d.speccls), decl)),
             1 => user.push_str(&format!("{}{{{}}}\n", sel_text(d.speccls), decl)),
             2 => author.push_str(&format!("{}{{{}}}\n", sel_text(d.speccls), decl)),
-            _ => {
+            3 => {
                 inline.push_str(&decl);
                 inline.push(';');
+            }
+            _ => {
+                // a second `color` attribute would be dropped by the HTML parser: only the first is written, the others
+                // are recorded as source 9 (no declaration)
+                if legacy.is_empty() {
+                    legacy = format!(" {}=\"{}\"", if bg { "bgcolor" } else { "color" }, hexcol(colour));
+                } else {
+                    aux.push(format!("9,0,0,{k}"));
+                    continue;
+                }
             }
         }
         aux.push(format!("{},{},{},{}", d.src, d.important as u8, d.speccls, k));
@@ -89,14 +105,24 @@ fn tuple_case(ds: &[D], r: &mut R) -> Case {
     }
     let style_el = if author.is_empty() { String::new() } else { format!("<style>{author}</style>") };
     let style_at = if inline.is_empty() { String::new() } else { format!(" style=\"{inline}\"") };
-    let html = format!("{style_el}<p id=x class=c{style_at}>qb</p>");
+    let html = if colour_first { format!("{style_el}<p id=x class=c{legacy}{style_at}>qb</p>") } else { format!("{style_el}<p id=x class=c{style_at}{legacy}>qb</p>") };
     let mut c = case(html, cfg, 20, "g-enum");
-    c.aux = format!("T{}", aux.join(";"));
+    c.aux = format!("{}{}", if bg { 'U' } else { 'T' }, aux.join(";"));
     c
+}
+
+/// does the `color` attribute stand in front of the `style` attribute?  (it does when its declaration precedes every
+/// inline declaration of the tuple)
+fn colour_attr_first(srcs: &[u8]) -> bool {
+    match (srcs.iter().position(|s| *s == 4), srcs.iter().position(|s| *s == 3)) {
+        (Some(a), Some(b)) => a < b,
+        _ => false,
+    }
 }
 
 /// reference answer for a tuple: index of the winning declaration
 fn tuple_winner(ds: &[(u8, bool, u8, usize)]) -> usize {
+    let colour_first = colour_attr_first(&ds.iter().map(|d| d.0).collect::<Vec<_>>());
     // visiting order: agent sheet, user sheet, author sheet (each in sheet order), then the style attribute
     let mut decls = Vec::new();
     for (pos, (src, imp, sc, k)) in ds.iter().enumerate() {
@@ -105,7 +131,18 @@ fn tuple_winner(ds: &[(u8, bool, u8, usize)]) -> usize {
             1 => Origin::User,
             _ => Origin::Author,
         };
-        decls.push(Decl { origin, important: *imp, inline: *src == 3, spec: if *src == 3 { (0, 0, 0) } else { sel_spec(*sc) }, order: pos, colour: (*k as u8, 0, 0) });
+        if *src == 9 {
+            continue;
+        }
+        let inline = *src >= 3;
+        // attributes are visited in document order: the style attribute's declarations in their order, the colour
+        // attribute before or after all of them
+        let order = match *src {
+            3 => 2000 + pos,
+            4 => if colour_first { 1000 + pos } else { 3000 + pos },
+            _ => pos,
+        };
+        decls.push(Decl { origin, important: *imp, inline, spec: if inline { (0, 0, 0) } else { sel_spec(*sc) }, order, colour: (*k as u8, 0, 0) });
     }
     // within one origin, tuple order = sheet order; across origins the layer decides, so `pos` is a valid order key
     refcss::cascade(&decls).map(|d| d.colour.0 as usize).unwrap()
@@ -134,28 +171,30 @@ impl Prop for C19 {
         "C19"
     }
     fn rule(&self) -> &'static str {
-        "exhaustive: all ordered pairs (thorough: and triples) of colour declarations over {agent,user,author,inline} x {normal,!important} x {p, .c, #x, p.c, p:nth-child(1)} on one element; random: nested documents with up to 12 colour rules over three origins plus inline styles, each token's innermost Colour annotation against the reference cascade; non-trivial = some token coloured"
+        "exhaustive: all ordered pairs (thorough: and triples) of colour declarations over {agent,user,author,inline,legacy color attribute} x {normal,!important} x {p, .c, #x, p.c, p:nth-child(1)} on one element, the pairs also as background declarations (background-color, bgcolor attribute); random: nested documents with up to 12 colour rules over three origins plus inline styles, each token's innermost Colour annotation against the reference cascade; non-trivial = some token coloured"
     }
     fn cases(&self, r: &mut R, tier: Tier) -> Vec<Case> {
         let mut v = Vec::new();
         let ds = all_decls();
         for a in &ds {
             for b in &ds {
-                v.push(tuple_case(&[*a, *b], r));
+                v.push(tuple_case(&[*a, *b], r, false));
+                // the same pair as background declarations (`background-color`, the legacy `bgcolor` attribute)
+                v.push(tuple_case(&[*a, *b], r, true));
             }
         }
         if tier == Tier::Thorough {
             for a in &ds {
                 for b in &ds {
                     for c in &ds {
-                        v.push(tuple_case(&[*a, *b, *c], r));
+                        v.push(tuple_case(&[*a, *b, *c], r, false));
                     }
                 }
             }
         } else {
             for _ in 0..1500 {
                 let t = [ds[r.u(ds.len())], ds[r.u(ds.len())], ds[r.u(ds.len())]];
-                v.push(tuple_case(&t, r));
+                { let bg = r.p(30); v.push(tuple_case(&t, r, bg)); }
             }
         }
         // random sheets over nested documents
@@ -242,6 +281,11 @@ impl Prop for C19 {
                 html = html.replacen("class=\"a\"", &format!("class=\"a\" style=\"color:#c80000{}\"", if imp { " !important" } else { "" }), 1);
                 aux.push(format!("I~{}", imp as u8));
             }
+            // the legacy colour attribute: a normal declaration with inline specificity
+            if r.p(40) {
+                html = html.replacen("class=\"b\"", "class=\"b\" color=\"#00c800\"", 1 + r.u(2));
+                aux.push("L~0".to_string());
+            }
             let mut c = case(html, cfg, 10 + r.u(60), "random");
             c.aux = format!("R{}", aux.join("\n"));
             v.push(c);
@@ -250,7 +294,8 @@ impl Prop for C19 {
     }
     fn oracle(&self, c: &Case, o: &Obs) -> Vec<Viol> {
         let mut out = vec![];
-        let got = match out_colours(o, false) {
+        let bg = c.aux.starts_with('U');
+        let got = match out_colours(o, bg) {
             Some(g) => g,
             None => {
                 if !c.aux.is_empty() && !matches!(o, Obs::Narrow) {
@@ -259,7 +304,7 @@ impl Prop for C19 {
                 return out;
             }
         };
-        if let Some(t) = c.aux.strip_prefix('T') {
+        if let Some(t) = c.aux.strip_prefix('T').or(c.aux.strip_prefix('U')) {
             let ds: Vec<(u8, bool, u8, usize)> = t.split(';').filter_map(|x| { let f: Vec<&str> = x.split(',').collect(); Some((f.first()?.parse().ok()?, *f.get(1)? == "1", f.get(2)?.parse().ok()?, f.get(3)?.parse().ok()?)) }).collect();
             let k = tuple_winner(&ds);
             let want = col(((10 * k + 10) as u8, 0, k as u8));
@@ -278,10 +323,13 @@ impl Prop for C19 {
             }
             let mut rules: Vec<(usize, bool, u8, Sel)> = Vec::new();
             let mut inline_imp: Option<bool> = None;
+            let mut legacy = false;
             for l in t.lines() {
                 let p: Vec<&str> = l.splitn(4, '~').collect();
                 if p[0] == "I" {
                     inline_imp = Some(p[1] == "1");
+                } else if p[0] == "L" {
+                    legacy = true;
                 } else if p.len() == 4 {
                     if let Some(s) = super::c20::dec_sel_pub(p[3]) {
                         rules.push((p[0].parse().unwrap_or(0), p[1] == "1", p[2].parse().unwrap_or(0), s));
@@ -307,6 +355,9 @@ impl Prop for C19 {
                             ds.push(Decl { origin: Origin::Author, important: imp, inline: true, spec: (0, 0, 0), order: 1000, colour: (200, 0, 0) });
                         }
                     }
+                    if legacy && f.elems[e].node.attr("color") == Some("#00c800") {
+                        ds.push(Decl { origin: Origin::Author, important: false, inline: true, spec: (0, 0, 0), order: 1001, colour: (0, 200, 0) });
+                    }
                     refcss::cascade(&ds).map(|d| col(d.colour))
                 })
                 .collect();
@@ -326,12 +377,12 @@ impl Prop for C19 {
         out
     }
     fn project(&self, _c: &Case, o: &Obs) -> String {
-        match out_colours(o, false) {
-            Some(v) => v.iter().map(|(c, cols)| format!("{c}[{}]", cols.join(","))).collect(),
-            None => o.class().into(),
+        match (out_colours(o, false), out_colours(o, true)) {
+            (Some(v), Some(b)) => v.iter().zip(b.iter()).map(|((c, cols), (_, bcols))| format!("{c}[{}|{}]", cols.join(","), bcols.join(","))).collect(),
+            _ => o.class().into(),
         }
     }
     fn nontrivial(&self, _c: &Case, o: &Obs) -> bool {
-        out_colours(o, false).map(|v| v.iter().any(|x| !x.1.is_empty())).unwrap_or(false)
+        out_colours(o, false).map(|v| v.iter().any(|x| !x.1.is_empty())).unwrap_or(false) || out_colours(o, true).map(|v| v.iter().any(|x| !x.1.is_empty())).unwrap_or(false)
     }
 }
